@@ -47,7 +47,7 @@ Definition op_mismatches := op_mismatches_from 0.
 
 (* ------------------------------------------------------------------------------------------------ *)
 (* operator-level cases of the aggregation, limit and merge operators (harness cmd/c08op)             *)
-From OG Require Import C08.Pipe.
+From OG Require Import C08.Pipe C08.Window.
 
 (* aggregation: the columns, the input chunks (key of the (group, window), raw row) and the expected output
    (key, reported time when it is defined by the language - single selector -, cells) *)
@@ -183,3 +183,15 @@ Fixpoint sortmerge_desc_mismatches_from (k : nat) (cs : list sortmerge_case) : l
       else k :: sortmerge_desc_mismatches_from (S k) r
   end.
 Definition sortmerge_desc_mismatches := sortmerge_desc_mismatches_from 0.
+
+(* ProcessorOptions.Window on generated (t, interval, offset) triples, negatives and the MinTime / MaxTime neighbourhood
+   included: the real function's (start, end) against the model function Window.window *)
+Definition window_case := (Z * Z * Z * Z * Z)%type.   (* t, d, off, start, end *)
+Fixpoint window_mismatches_from (k : nat) (cs : list window_case) : list nat :=
+  match cs with
+  | [] => []
+  | (t, d, off, s, e) :: r =>
+      if (let (ms, me) := window t d off in (ms =? s)%Z && (me =? e)%Z) then window_mismatches_from (S k) r
+      else k :: window_mismatches_from (S k) r
+  end.
+Definition window_mismatches := window_mismatches_from 0.
